@@ -54,7 +54,9 @@ def _cds(pts, centripetal):
     out = []
     for a, b in zip(pts, pts[1:]):
         d2 = sum((x - y) ** 2 for x, y in zip(b, a))
-        dist = math.sqrt(float(d2))        # linalg.point_distance: math.sqrt(sum of squares)
+        import core
+        from geomdl import linalg
+        dist = float(core.impl_sqrt(d2, lambda: linalg.point_distance(qs(a), qs(b))))   # the implementation's own chord length
         out.append(F(math.sqrt(dist)) if centripetal else F(dist))
     return out
 
